@@ -394,7 +394,7 @@ impl MemExec {
         let mut held = vec![];
         let mut stable = true;
         for (rid, hs) in self.handles.iter() {
-            if let Some((e, snap)) = hs.first() {
+            if let Some((e, _snap)) = hs.first() {
                 held.push(format!("{rid}:{}:{}", e.refs(), if e.is_outdated() { 1 } else { 0 }));
             }
             for (e, snap) in hs {
@@ -419,9 +419,8 @@ impl MemExec {
     }
 }
 
-pub fn algos() -> Vec<&'static str> {
-    vec!["fifo", "lru", "sieve", "s3fifo", "lfu"]
-}
+/// Set by `collide=1`: only colliding hashers (C17 campaigns).
+pub static COLLIDE: std::sync::atomic::AtomicBool = std::sync::atomic::AtomicBool::new(false);
 
 pub fn gen_cfg(rng: &mut Rng, mode: &str, algo: &str) -> MemCfg {
     let shards = *rng.pick(&[1usize, 1, 1, 2, 3, 4]);
@@ -431,11 +430,19 @@ pub fn gen_cfg(rng: &mut Rng, mode: &str, algo: &str) -> MemCfg {
         _ => rng.range(2, 14) as usize,
     };
     let keys = rng.range(3, 7);
-    let hmode = match rng.below(8) {
-        0 => HMode::Const(rng.below(4)),
-        1 => HMode::Mod(rng.range(1, 3)),
-        2 => HMode::Div(2),
-        _ => HMode::Id,
+    let hmode = if COLLIDE.load(std::sync::atomic::Ordering::Relaxed) {
+        match rng.below(4) {
+            0 | 1 => HMode::Const(rng.below(1 << 20)),
+            2 => HMode::Mod(rng.range(1, 2)),
+            _ => HMode::Div(rng.range(2, 4)),
+        }
+    } else {
+        match rng.below(8) {
+            0 => HMode::Const(rng.below(4)),
+            1 => HMode::Mod(rng.range(1, 3)),
+            2 => HMode::Div(2),
+            _ => HMode::Id,
+        }
     };
     MemCfg {
         imp: algo.to_string(),
@@ -606,6 +613,7 @@ pub fn main(args: &Args) -> i32 {
     let seed = arg_u64(args, "seed", 0);
     let cases = arg_u64(args, "cases", 100);
     let maxops = arg_u64(args, "maxops", 40);
+    COLLIDE.store(arg_u64(args, "collide", 0) == 1, std::sync::atomic::Ordering::Relaxed);
     let mode = arg_str(args, "mode", "oracle").to_string();
     let algo_arg = arg_str(args, "algos", "fifo,lru,sieve,s3fifo,lfu").to_string();
     let algos: Vec<&str> = algo_arg.split(',').collect();
